@@ -200,6 +200,6 @@ def cycle (cfg : Cfg) (P : Store) (now now1 : Tick) (exec : Id → Nat → Outco
       let P2 := store P1 r.st
       let d := done r.st (known cfg)
       let P3 := if d then purge P2 r.st cfg.owned (known cfg) else P2
-      { invoked := r.invoked, P' := P3, closed := d, delays := delays r.st (known cfg) now1 }
+      { invoked := r.invoked, P' := P3, closed := d, delays := delays r.st (known cfg).eraseDups now1 }
 
 end Kopf.C02
